@@ -78,29 +78,33 @@ theorem VI_written (s s' : St) (hw : s'.base.headersWritten = true) (h3 : s'.bas
   rw [h3]; exact v.2
 
 theorem VI_hFlush (gz : Gz) (rq : Req) (s : St) (fin : Bool) (v : VI s) :
-    VI (hFlush gz rq s fin).1 ∧ (hFlush gz rq s fin).1.base.headersWritten = true := by
+    VI (hFlush gz rq s fin).1 ∧ ((hFlush gz rq s fin).2 = false → (hFlush gz rq s fin).1.base.headersWritten = true) := by
   by_cases hw : s.base.headersWritten = true
   · cases ht : transformChunk gz s.t s.base.buf.flatten fin with
     | none =>
       have e : hFlush gz rq s fin = ({ base := { s.base with buf := [] }, t := s.t }, true) := by
-        simp [hFlush, hw, ht]
+        rw [hFlush_eq gz rq s fin (Or.inl hw)]
+        simp [hFlushT, hw, ht]
       rw [e]
-      exact ⟨VI_written s _ hw rfl v, hw⟩
+      exact ⟨VI_written s _ hw rfl v, fun _ => hw⟩
     | some p =>
       obtain ⟨t', chunk'⟩ := p
       rw [hFlush_written gz rq s fin hw t' chunk' ht]
       obtain ⟨a, b⟩ := hFlushCore_head_written rq s.base [chunk'] hw
-      exact ⟨VI_written s _ b a v, b⟩
+      exact ⟨VI_written s _ b a v, fun _ => b⟩
   · have hw' : s.base.headersWritten = false := by simpa using hw
-    obtain ⟨hc, h0⟩ := v.1 hw'
-    rw [hFlush_unwritten gz rq s fin hw']
-    refine ⟨⟨fun h => (by rw [show _ = true from hFlushCore_hw rq _] at h; cases h), ?_⟩, hFlushCore_hw rq _⟩
-    intro code hs hh
-    simp only [] at hh
-    rw [hFlushCore_conn_unwritten rq s.base _ _ hw'] at hh
-    rw [cwh_head rq _ _ _ _ h0 code hs hh]
-    exact varyLine_getAll _ (varyOK1_finalHeaders _ _ _ _ _
-      (varyOK1_transformFirst gz s.t s.base.status s.base.hdrs s.base.buf.flatten fin hc))
+    by_cases hv : clValid s.base.hdrs = true
+    · obtain ⟨hc, h0⟩ := v.1 hw'
+      rw [hFlush_unwritten gz rq s fin hw' hv]
+      refine ⟨⟨fun h => (by rw [show _ = true from hFlushCore_hw rq _] at h; cases h), ?_⟩, fun _ => hFlushCore_hw rq _⟩
+      intro code hs hh
+      simp only [] at hh
+      rw [hFlushCore_conn_unwritten rq s.base _ _ hw'] at hh
+      rw [cwh_head rq _ _ _ _ h0 code hs hh]
+      exact varyLine_getAll _ (varyOK1_finalHeaders _ _ _ _ _
+        (varyOK1_transformFirst gz s.t s.base.status s.base.hdrs s.base.buf.flatten fin hc))
+    · rw [hFlush_reject gz rq s fin hw' (by simpa using hv)]
+      exact ⟨v, fun h => (by cases h)⟩
 
 theorem fpEtag_same (rq : Req) (b : C02.St) :
     (fpEtag rq b).conn = b.conn ∧ (fpEtag rq b).headersWritten = b.headersWritten := by
@@ -145,9 +149,11 @@ theorem VI_hFinish (gz : Gz) (rq : Req) (s : St) (b : Option Bytes) (v : VI s) :
     · exact v1
     · split
       · exact v2
-      · split
-        · exact VI_written _ _ hw2 (cFinish_head _) v2
-        · exact VI_written _ _ hw2 (cFinish_head _) v2
+      · rename_i hq2
+        have hw3 := hw2 (by simpa using hq2)
+        split
+        · exact VI_written _ _ hw3 (cFinish_head _) v2
+        · exact VI_written _ _ hw3 (cFinish_head _) v2
 
 theorem VI_onException (gz : Gz) (rq : Req) (s : St) (v : VI s) : VI (onException gz rq s) := by
   unfold onException
